@@ -32,10 +32,10 @@ package storage
 //@   call[InsertionIndex.InsertNoReplace#0] assert indexed_under_write_lock [C08]: held(sc.mu) == 2
 //@   call[util.LdWrite#0] assert writer_choice [C01,C05]: ite(sc.dataWriter != nil, ref(w) == ref(sc.dataWriter), ref(w) == ref(sc.writer))
 //@   call[InsertionIndex.InsertNoReplace#0] assert record [C01,C03,C05]: ref(arg0) == ref(sc.idx) && arg1 == keyCid && arg2 == wrap_u64(old(pend(sc)) - wbase(w))
-//@   call[InsertionIndex.InsertNoReplace#0] assert after_write [C06,C16]: werr == nil
+//@   call[InsertionIndex.InsertNoReplace#0] assert after_write [C06,C11,C16]: werr == nil
 //@   ghost after call[InsertionIndex.InsertNoReplace#0]: pend(sc) := wn(w)
-//@   ensures ri_on_return [C16]: sc.dataWriter != nil ==> wn(sc.dataWriter) == pend(sc)
-//@   ensures ri_on_return_stream [C16]: sc.dataWriter == nil && sc.writer != nil && !sc.closed ==> wn(sc.writer) == pend(sc)
+//@   ensures ri_on_return [C11,C12,C16]: sc.dataWriter != nil ==> wn(sc.dataWriter) == pend(sc)
+//@   ensures ri_on_return_stream [C11,C12,C16,C20]: sc.dataWriter == nil && sc.writer != nil && !sc.closed ==> wn(sc.writer) == pend(sc)
 //@   ensures closed_err [C04]: old(sc.closed) && cerr == nil ==> err == ErrClosed && pend(sc) == old(pend(sc)) && nrec(sc.idx) == old(nrec(sc.idx))
 //@   ensures released [C08]: held(sc.mu) == 0
 //@   let keyc, cerr := call[cid.Cast#0]
@@ -67,7 +67,7 @@ package storage
 
 //@ func newWritable
 //@   ensures header_layout [C05]: err == nil ==> result0.header.DataOffset == wrap_u64(51 + result0.opts.DataPadding) && result0.header.DataSize == 0 && result0.header.IndexOffset == wrap_u64(wrap_u64(51 + result0.opts.DataPadding) + result0.opts.IndexPadding)
-//@   ensures v1_payload_at_zero [C01,C05]: err == nil && result0.opts.WriteAsCarV1 && result0.dataWriter != nil ==> wn(result0.dataWriter) == 0 && wbase(result0.dataWriter) == 0
+//@   ensures v1_payload_at_zero [C01,C05,C20]: err == nil && result0.opts.WriteAsCarV1 && result0.dataWriter != nil ==> wn(result0.dataWriter) == 0 && wbase(result0.dataWriter) == 0
 //@   ensures v2_payload_at_data_offset [C05]: err == nil && !result0.opts.WriteAsCarV1 ==> result0.dataWriter != nil && wn(result0.dataWriter) == wrap_s64(result0.header.DataOffset) && wbase(result0.dataWriter) == wrap_s64(result0.header.DataOffset)
 //@   ensures writer_kind [C04]: err == nil ==> typeis(result0.writer, "*v2/storage.positionTrackingWriter") && typeis(result0.idx, "*v2/index.InsertionIndex")
 //@   ensures writer_ok [C12,C16]: err == nil && result0.dataWriter != nil ==> objinv(result0.dataWriter)
